@@ -454,7 +454,7 @@ P('C18', claimed=True, level='other',
               'findings.'))
 
 P('C19', claimed=True, level='other',
-  contracts=['synth_envelope', 'base_utils'], drivers=['vf.drivers.C19'],
+  contracts=['synth_envelope', 'base_utils', 'synth_envctors'], drivers=['vf.drivers.C19'],
   level_text=('Discharged: the shape-name table and curve values (exhaustive finite obligations on the real '
               'Env._shape_number/_curve_value); the array layout of Env._envgen_format for any number of segments '
               '(initial level, segment count = len(times), release and loop node or -99 when the conversion gives '
@@ -464,7 +464,9 @@ P('C19', claimed=True, level='other',
               'evaluation Env._env_at: the value comes from THE segment whose time span [sum of the first p durations, '
               '+ duration p) contains the time (ghost cumulative-time function, loop invariant) - between its two '
               'breakpoint levels on the linear/step/hold shapes, the breakpoint level at a breakpoint - and the last '
-              'level is held only at or after the last breakpoint; the wrap law of utils.wrap_extend used for times. Bounded, against an independent Env '
+              'level is held only at or after the last breakpoint; the wrap law of utils.wrap_extend used for times; eight of the '
+              'standard constructors (triangle, sine, perc, linen, cutoff, asr, adsr, dadsr: exactly the documented level list, '
+              'time list, curve and release node, built from the caller\'s parameters). Bounded, against an independent Env '
               'reference: the eleven constructors, all shapes incl. the transcendental ones on dense time grids, '
               'per-channel levels/times/curves, offsets, and the EnvGen inputs in definition bytes.'),
   level_note=('In the _envgen_format contract the conversions by ugen_param are opaque (levels/times/curves as '
